@@ -6,8 +6,11 @@ package common
 // ---- C08: reserved words. An identifier is escaped when its MATLAB spelling (after the case conversion) is reserved.
 // (ComputedFieldIdentifierName looks the model spelling up instead; for member names, which validation restricts to
 // camelCase, the two lookups agree because every MATLAB keyword is a single lower-case word. Not under contract.)
+// WriteBlockBody(w, f) prints what f prints, indented, and then `end`: it calls nothing dynamically except f.
+//@ callback-parametric func WriteBlockBody
 //@ func FieldIdentifierName
 //@   property C08
+//@   pure
 //@   ensures unreserved_spelling_is_kept: !isReservedName[lastResult(formatting.ToSnakeCase)] ==> result == lastResult(formatting.ToSnakeCase)
 //@   ensures reserved_spelling_is_escaped: isReservedName[lastResult(formatting.ToSnakeCase)] ==> result == lastResult(formatting.ToSnakeCase) + "_"
 //@ func EnumValueIdentifierName
